@@ -65,9 +65,37 @@ func canonTrace(evs []sysEvent) (string, error) {
 			}
 			out = append(out, "readall="+st)
 		case "pwrite64":
-			out = append(out, "pwrite:"+e.Arg+"="+okErr(e))
+			// WriteAt loops over short writes: pwrite(off,len)=k<len; pwrite(off+k,len-k)=...
+			// is ONE model operation pwrite(off,len) with the status of the last call
+			var off, n int
+			fmt.Sscanf(e.Arg, "%d:%d", &off, &n)
+			last := e
+			for i+1 < len(evs) && evs[i+1].Name == "pwrite64" && !last.Err {
+				k, _ := strconv.Atoi(last.Ret)
+				var o2, n2, o1, n1 int
+				fmt.Sscanf(last.Arg, "%d:%d", &o1, &n1)
+				fmt.Sscanf(evs[i+1].Arg, "%d:%d", &o2, &n2)
+				if k >= n1 || o2 != o1+k || n2 != n1-k {
+					break
+				}
+				i++
+				last = evs[i]
+			}
+			out = append(out, fmt.Sprintf("pwrite:%d:%d=%s", off, n, okErr(last)))
 		case "write":
-			out = append(out, "write:"+e.Arg+"="+okErr(e))
+			n, _ := strconv.Atoi(e.Arg)
+			last := e
+			for i+1 < len(evs) && evs[i+1].Name == "write" && !last.Err {
+				k, _ := strconv.Atoi(last.Ret)
+				n1, _ := strconv.Atoi(last.Arg)
+				n2, _ := strconv.Atoi(evs[i+1].Arg)
+				if k >= n1 || n2 != n1-k {
+					break
+				}
+				i++
+				last = evs[i]
+			}
+			out = append(out, fmt.Sprintf("write:%d=%s", n, okErr(last)))
 		case "close":
 			out = append(out, "close="+okErr(e))
 		}
